@@ -288,7 +288,7 @@ def _check_conv(case, ctx):
     e = float(np.sum(c11))
     want = float(np.sum(o64) * np.sum(h64))
     es = float(np.sum(np.abs(o64)) * np.sum(np.abs(h64))) + 1e-300
-    ctx.require(abs(e - want) <= rt * es, pb + ':energy' + tb, '%s: sum(conv)=%.17g, sum(o) sum(h)=%.17g' % (desc, e, want))
+    ctx.within(abs(e - want), rt * es, pb + ':energy' + tb, '%s: sum(conv)=%.17g, sum(o) sum(h)=%.17g' % (desc, e, want))
     # the very same array object given as object and as psf (and a second view of the same memory): conv is a function of the
     # values, so the image is the explicit circular sum of the array with itself and equals what an equal copy gives
     if case.get('selfconv', True):
@@ -1128,7 +1128,7 @@ def _mtf_props(ctx, m, ph, ot, p64, shape, dx, dt, desc, hist=''):
     sb = ':energy<eps' if total < eps else ''
     U.check_close(OT, ref, t11, 'otf_from_psf:oracle' + sb + hist, '%s: OTF vs explicit DFT/sum' % desc, atol=t11 * 0.1)
     U.check_close(M, np.abs(ref), t11, 'mtf_from_psf:oracle' + sb + hist, '%s: MTF vs |explicit DFT|/sum' % desc, atol=t11 * 0.1)
-    ctx.require(abs(M[cy, cx] - 1) <= t13, 'mtf_from_psf:dc' + sb + hist, '%s: MTF at zero frequency [%d,%d] = %.17g' % (desc, cy, cx, M[cy, cx]))
+    ctx.within(abs(M[cy, cx] - 1), t13, 'mtf_from_psf:dc' + sb + hist, '%s: MTF at zero frequency [%d,%d] = %.17g' % (desc, cy, cx, M[cy, cx]))
     ctx.require(abs(OT[cy, cx] - 1) <= t13 and abs(PH[cy, cx]) <= t13, 'otf_from_psf:dc' + sb + hist, '%s: OTF(0)=%r PTF(0)=%r' % (desc, OT[cy, cx], PH[cy, cx]))
     ctx.require(float(M.max()) <= 1 + t12 and float(M.min()) >= 0, 'mtf_from_psf:range', '%s: MTF range [%.17g, %.17g]' % (desc, M.min(), M.max()))
     iy, jy = _partners(ny)
@@ -1140,7 +1140,7 @@ def _mtf_props(ctx, m, ph, ot, p64, shape, dx, dt, desc, hist=''):
     ctx.require(float(np.max(np.abs(PH))) <= math.pi + (1e-6 if f32 else 1e-12), 'ptf_from_psf:range', '%s: |PTF| max %.17g' % (desc, np.max(np.abs(PH))))
     ctx.require(m.dx == ph.dx == ot.dx, 'otf:dx' + hist, '%s: frequency spacing differs: %r %r %r' % (desc, m.dx, ph.dx, ot.dx))
     if ny == nx:
-        ctx.require(abs(m.dx - 1000 / (ny * dx)) <= 1e-12 * 1000 / (ny * dx), 'otf:dx' + hist, '%s: df=%r, expected 1000/(n dx)=%r' % (desc, m.dx, 1000 / (ny * dx)))
+        ctx.within(abs(m.dx - 1000 / (ny * dx)), 1e-12 * 1000 / (ny * dx), 'otf:dx' + hist, '%s: df=%r, expected 1000/(n dx)=%r' % (desc, m.dx, 1000 / (ny * dx)))
     return F / ctx_sum
 
 
